@@ -295,8 +295,50 @@ def scopes_rule(ctx):
     return obs
 
 
+def runtime_rule(ctx):
+    """C06.runtime: the path-descent and combination helpers have the documented one-line semantics, and a computed (not-in-path)
+    operand still contributes the sub-paths it read."""
+    ob = ctx.ob
+    tc = ctx.tc
+    obs = []
+    want = {
+        ("RUNTIME_ITEMS", "Z"): (r"^function\(a,b\)\{if\(a===true\)returntrue;if\(a\)returna\[b\]\}$", "Z(tree,key): true stays true, otherwise descend by key whenever the tree is truthy (keys 0 and '' included)"),
+        ("EXTRA_RUNTIME_ITEMS", "a"): (r"^function\(a\)\{for\(vari=0;i<a\.length;i\+\+\)if\(a\[i\]\)returna\}$", "Q.a(list): truthy iff any entry is truthy"),
+        ("EXTRA_RUNTIME_ITEMS", "b"): (r"^function\(b\)\{vara=Object\.values\(b\);for\(vari=0;i<a\.length;i\+\+\)if\(a\[i\]\)returna\}$", "Q.b(obj): truthy iff any value is truthy"),
+    }
+    for (tname, h), (rx, what) in want.items():
+        c = tc.const(tname)
+        body = None
+        if c is not None:
+            for el in sir.walk(c["e"]):
+                if el.get("k") == "tuple" and len(el["elems"]) == 2 and el["elems"][0].get("v") == h:
+                    body = el["elems"][1].get("v")
+        ok = body is not None and re.match(rx, re.sub(r"\s+", "", body)) is not None
+        obs.append(ob("C06.runtime/%s.%s" % (tname, h), ok, "group.rs", "%s - defined as %s" % (what, body)))
+    pa = [f for f in tc.fns if f.name == "to_path_analysis_str" and f.base == "PathAnalysisState" and f.body]
+    if len(pa) != 1:
+        obs.append(ob("C06.runtime/notinpath", False, "proc_gen/expr.rs", "PathAnalysisState::to_path_analysis_str not found"))
+    else:
+        f = pa[0]
+        okc = False
+        d = "no NotInPath arm"
+        for n in sir.walk(f.body):
+            if n.get("k") == "arm" and "NotInPath" in sir.pat_variants(n["pat"]):
+                ifs = [x for x in sir.walk(n["body"]) if x.get("k") == "if"]
+                if ifs:
+                    c = sir.expr_str(ifs[0]["cond"]).replace(" ", "")
+                    d = c
+                    okc = c in ("sub_p.len()>0", "!sub_p.is_empty()", "sub_p.len()>=1", "sub_p.len()!=0")
+        obs.append(ob("C06.runtime/notinpath", okc, ctx.where(f), "a computed operand that read at least one path still reports a (truthy-testable) state: condition `%s`" % d,
+                      witness=None if okc else "<t is=\"x\" data=\"{{ bb: a + 1 }}\"/> : marking only `a` does not reach the sub-template"))
+        pre = any(n.get("k") == "call" and (sir.call_path(n) or "").endswith("to_path_analysis_str_group_prefix") for n in sir.walk(f.body))
+        obs.append(ob("C06.runtime/group-prefix", pre, ctx.where(f), "the accumulated sub-paths are emitted as a `!!(..||..)||` prefix: %s" % pre))
+    return obs
+
+
 def run(ctx):
-    obs = guard_rule(ctx)
+    obs = runtime_rule(ctx)
+    obs += guard_rule(ctx)
     obs += paths_rule(ctx)
     obs += scopes_rule(ctx)
     return obs
